@@ -28,7 +28,8 @@ func vArr(es ...*variants.Variant) *variants.Variant {
 	return variants.VariantFromArray(es)
 }
 
-var ints = []int64{0, 1, -1, 2, 3, 7, 10, 63, 64, 65, 1000, math.MaxInt64, math.MinInt64, 1<<53 + 1, -(1<<53 + 1), 16777217, 4294967296}
+var ints = []int64{0, 1, -1, 2, 3, 7, 10, 63, 64, 65, 1000, math.MaxInt64, math.MinInt64, 1<<53 + 1, -(1<<53 + 1), 16777217, 4294967296,
+	-62135596800, 253402300799, 1<<60 + 1<<36 + 1, 1<<55 + 1<<31 + 1, -(1<<62 + 1<<38 + 1), 1<<60 + 1<<37 + 1<<36 - 1}
 
 func valuePool() map[string][]*variants.Variant {
 	p := map[string][]*variants.Variant{}
@@ -42,7 +43,7 @@ func valuePool() map[string][]*variants.Variant {
 	for _, f := range []float64{0, math.Copysign(0, -1), 1, -1.5, 0.1, 0.5, 2, 3, 9007199254740992, 1e300, math.NaN(), math.Inf(1), math.Inf(-1), 1e19, -1e19, 2.5} {
 		p["double"] = append(p["double"], vDouble(f))
 	}
-	for _, s := range []string{"", "a", "ab", "b", "é", "世", "1", "12", "-5", "+7", "007", "1.5", "abc", "true", "Yes", "N", "9007199254740993", "-9223372036854775808", "9223372036854775808", "x y", "0", "1e3"} {
+	for _, s := range []string{"", "a", "ab", "b", "é", "世", "1", "12", "-5", "+7", "007", "1.5", "abc", "true", "Yes", "N", "9007199254740993", "-9223372036854775808", "9223372036854775808", "x y", "0", "1e3", "h\u00e9llo", "\u65e5\u672c\u8a9eabc", "\u20acuro"} {
 		p["str"] = append(p["str"], vStr(s))
 	}
 	p["bool"] = []*variants.Variant{vBool(true), vBool(false)}
@@ -214,6 +215,33 @@ func propC06(c *Ctx) {
 				opl := fmt.Sprintf("op %s less %s %s", m, encVariant(a), encVariant(b))
 				if ok1 && ok2 && ok3 && le != (lt || eq) {
 					c.fail(Failure{Kind: "oracle", Op: opl, Impl: res["less"] + " / " + res["lessEqual"] + " / " + res["equal"], Note: "a<=b must be a<b or a=b"})
+				}
+				gt, ok5 := asBoolOutcome(res["more"])
+				ge, ok6 := asBoolOutcome(res["moreEqual"])
+				if ok5 && ok6 && ok3 && ge != (gt || eq) {
+					c.fail(Failure{Kind: "oracle", Op: fmt.Sprintf("op %s moreEqual %s %s", m, encVariant(a), encVariant(b)), Impl: res["more"] + " / " + res["moreEqual"] + " / " + res["equal"], Note: "a>=b must be a>b or a=b"})
+				}
+				if a.Type() == b.Type() && ok6 {
+					leRev := safeCall(func() string { return outcome(mgrOf(m).LessEqual(b, a)) })
+					if l, ok := asBoolOutcome(leRev); ok && l != ge {
+						c.fail(Failure{Kind: "oracle", Op: fmt.Sprintf("op %s moreEqual %s %s", m, encVariant(a), encVariant(b)), Impl: res["moreEqual"] + " vs LessEqual(b,a) " + leRev, Note: "a>=b must equal b<=a for operands of one type"})
+					}
+				}
+				// indexing follows list semantics
+				if b.Type() == variants.Integer && (a.Type() == variants.String || a.Type() == variants.Array) {
+					i := b.AsInteger()
+					want := "err INDEX_OUT_OF_RANGE"
+					if a.Type() == variants.String {
+						rs := []rune(a.AsString())
+						if i >= 0 && i < len(rs) {
+							want = "ok " + encVariant(vStr(string(rs[i])))
+						}
+					} else if i >= 0 && i < a.Length() {
+						want = "ok " + encVariant(a.GetByIndex(i))
+					}
+					if res["getElement"] != want {
+						c.fail(Failure{Kind: "oracle", Op: fmt.Sprintf("op %s getElement %s %s", m, encVariant(a), encVariant(b)), Impl: res["getElement"], Note: "indexing must follow list semantics: expected " + want})
+					}
 				}
 				if ok3 && ok4 && ne == eq {
 					c.fail(Failure{Kind: "oracle", Op: opl, Impl: res["equal"] + " / " + res["notEqual"], Note: "a<>b must be not a=b"})
@@ -437,6 +465,15 @@ func roundTrips(c *Ctx, a *variants.Variant) {
 		check(variants.String, "int/long<->string")
 	case variants.Float:
 		check(variants.Double, "float->double")
+	case variants.DateTime:
+		if a.AsDateTime().Nanosecond() == 0 {
+			check(variants.Long, "date-time<->long (s)")
+			check(variants.Integer, "date-time<->integer (s)")
+		}
+	case variants.TimeSpan:
+		if int64(a.AsTimeSpan())%1000000 == 0 {
+			check(variants.Long, "time span<->long (ms)")
+		}
 	case variants.Boolean:
 		check(variants.Integer, "boolean<->integer")
 		check(variants.Long, "boolean<->long")
@@ -462,6 +499,13 @@ func propC07(c *Ctx) {
 			x = -x
 		}
 		all = append(all, vInt(int(x)), vLong(x), vDouble(float64(x)/7), vFloat(float32(x)/3), vStr(strconv.FormatInt(x, 10)), vSpan(time.Duration(x)))
+		// integers that round differently when narrowed to float32 via float64 (double rounding)
+		k := uint(54 + c.Rng.Intn(9))
+		y := int64(1)<<k + int64(1)<<(k-24) + 1
+		if c.Rng.Intn(2) == 0 {
+			y = -y
+		}
+		all = append(all, vLong(y), vInt(int(y)), vTime(time.Unix(x%253402300799, 0)))
 	}
 	for _, a := range all {
 		for t := 0; t <= 10; t++ {
